@@ -54,7 +54,6 @@ func nhCase(g *gen, dist map[string]int) (string, []map[string]string) {
 		switch {
 		case r < 15:
 			name, sk, allow := g.Pick(namePool), g.sk(), g.allow()
-			allows[name] = allow
 			ch, err := c.ListenClient(name, sk, allow)
 			z := int64(0)
 			if err != nil {
@@ -65,6 +64,7 @@ func nhCase(g *gen, dist map[string]int) (string, []map[string]string) {
 			} else {
 				owners = append(owners, nhOwner{name, ch})
 				live[name] = sk
+				allows[name] = allow
 			}
 			ops = append(ops, fmt.Sprintf("NhListen %s %s %s", hx.HxS(name), hx.HxS(sk), coqStrs(allow)))
 			obs = append(obs, obsZ(z))
@@ -160,6 +160,16 @@ func nhCase(g *gen, dist map[string]int) (string, []map[string]string) {
 			obs = append(obs, obsNh(resp, notified, ownerName, sid, others, mid, fin))
 			dist[fmt.Sprintf("nh-visitor:pre=%v:resp=%d:notified=%v", pre, resp, notified)]++
 			dist["sign:"+kind]++
+			if notified && isLive && !(contains(allows[name], user) || contains(allows[name], "*")) {
+				fails = append(fails, map[string]string{"key": "nathole:owner-notified-for-user-outside-allowUsers",
+					"what": "nathole.Controller.HandleVisitor opened a session and delivered a sid to the proxy owner for a correctly signed request of a user outside allowUsers",
+					"case": fmt.Sprintf("%s allowUsers=%q", ops[len(ops)-1], allows[name])})
+			}
+			if fin != 0 || (!notified && mid != 0) {
+				fails = append(fails, map[string]string{"key": "nathole:session-state-left-behind",
+					"what": "a refused or pre-check NAT-hole request left a session in nathole.Controller.sessions",
+					"case": ops[len(ops)-1]})
+			}
 			if notified && (pre || kind != "right") {
 				fails = append(fails, map[string]string{"key": "nathole:owner-notified-without-key-or-in-precheck",
 					"what": "nathole.Controller.HandleVisitor delivered a sid to the proxy owner for a pre-check or wrongly signed request",
